@@ -869,3 +869,40 @@ theorem front_eq_spec {s : State} {sp : InSt} {outW : Option Int} (rel : Rel s s
     | some w => rw [h] at hlw; cases hlw
 
 end Noir.Start
+
+namespace Noir.Start
+open Noir.StartSpec
+variable {α : Type}
+
+/-- A receive timeout (the block goes idle): a pending announcement is emitted, then the fake
+    `FlushBatch`; the contract state is untouched. -/
+theorem timeout_ok {s : State} {sp : InSt} {outW : Option Int} (rel : Rel s sp outW)
+    (hT : s.missingTerm ≠ 0) :
+    wmSafeGo outW (step s (Arrival.timeout : Arrival α)).2 = true ∧
+    (step s (Arrival.timeout : Arrival α)).1.missingTerm = s.missingTerm ∧
+    Rel (step s (Arrival.timeout : Arrival α)).1 sp (wmAfter outW (step s (Arrival.timeout : Arrival α)).2) := by
+  simp only [step, hT, if_false]
+  cases hp : s.pending with
+  | none =>
+    refine ⟨by simp [wmSafeGo], rfl, ?_⟩
+    simpa [wmAfter] using rel
+  | some q =>
+    have he := rel.eff; rw [hp] at he; simp only at he
+    refine ⟨?_, rfl, ?_⟩
+    · cases hw : outW with
+      | none => simp [wmSafeGo]
+      | some w => have := rel.pendGt q w hp hw; simp [wmSafeGo]; omega
+    · simp only [wmAfter]
+      exact ⟨rel.len, rel.npos, rel.latest, rel.front, rel.far, rel.farPos, rel.bound, he,
+        fun _ _ h => by cases h⟩
+
+/-- the non-watermark part of a timeout's output is the fake `FlushBatch` -/
+theorem timeout_out (s : State) (hT : s.missingTerm ≠ 0) :
+    (step s (Arrival.timeout : Arrival α)).2 = [.flushBatch] ∨
+    ∃ p, (step s (Arrival.timeout : Arrival α)).2 = [.wm p, .flushBatch] := by
+  simp only [step, hT, if_false]
+  cases s.pending with
+  | none => left; rfl
+  | some p => right; exact ⟨p, rfl⟩
+
+end Noir.Start
